@@ -577,15 +577,18 @@ LEVEL_TEXT = ("Theorems: for every module of the structural subset (guard in_sub
               "and primitive instance of the module (C02_read_denotes_sound) and, conversely, every model of the module is the restriction of a "
               "consistent valuation of the circuit (C02_read_denotes_conv; together C02_read_denotes); the registry is the list of instances "
               "of the text and every pin of every instance is attached to the net (or expression node) named in the instantiation, open pins "
-              "unattached (C02_read_bb_pins). For blackbox-free modules whose net identifiers are usable node names and whose outputs are "
-              "inputs or driven, the reader model succeeds (C02_read_succeeds_bbfree, C02_read_denotes_full_bbfree). For all expression trees "
+              "unattached (C02_read_bb_pins). Under identifier guards (net identifiers non-empty, without leading digit and without dot; "
+              "outputs are inputs, driven nets or nets on blackbox output pins; instance names without leading digit; input and output pins "
+              "of a definition disjoint; pins of different instances are different strings) the reader model succeeds, blackbox instances "
+              "included, and the returned circuit has the name, registry, pins and denotation of the module (C02_read_succeeds, "
+              "C02_read_denotes_full_guarded; blackbox-free: C02_read_denotes_full_bbfree). For all expression trees "
               "the created gates carry the Verilog value (ternary as mux, parity cancellation); the grammar's rule table is regenerated from "
               "verilog.lark on every run and proved equal to the table of the stratified tree type, for which print/parse is proved for all "
-              "trees; a port list that disagrees with the declarations gives an error. Success of the read for modules with blackbox "
-              "instances is decided per generated module by the Coq specification (direct evaluation of the AST against evalc of the "
-              "returned circuit, all valuations).")
+              "trees; a port list that disagrees with the declarations gives an error. The statement without the identifier guards is "
+              "decided per generated module by the Coq specification (direct evaluation of the AST against evalc of the returned circuit, "
+              "all valuations).")
 LEVEL_NOTE = ("Trusted: Coq kernel + vm_compute, std++, Lark's LALR engine and lexer (white space, comments, escaped identifiers, keyword vs "
               "identifier are validated by rendering ASTs to text, not modelled), the module-extraction regex of io.verilog_to_circuit, "
-              "translator shape for verilog.lark, harness renderer. C02_read_denotes_full (adds success of the read for modules with "
-              "blackbox instances) is stated and validated per case.")
+              "translator shape for verilog.lark, harness renderer. C02_read_denotes_full without the identifier guards is no theorem "
+              "(counter-examples in Properties/C02.v); it is the statement validated per case.")
 TECHNIQUE = "Coq proof (transformer invariant, print/parse) + regenerated grammar table + vm_compute correspondence and oracle"
